@@ -134,15 +134,35 @@ impl<'a> TryFrom<&'a str> for &'a DataUrl {
 }
 
 /// Owned data URL.
-#[derive(Debug, Clone, PartialEq, Eq, PartialOrd, Ord)]
+#[derive(Debug, Clone)]
 pub struct DataUrlBuf {
 	url: UriBuf,
 	delimiters: DataUrlDelimiters,
 }
 
+// `DataUrlBuf: Borrow<DataUrl>`: compare and hash like the borrowed form. The
+// cached delimiters are offsets into one spelling of the URL and take no part.
+impl PartialEq for DataUrlBuf {
+	fn eq(&self, other: &Self) -> bool {
+		self.as_data_url() == other.as_data_url()
+	}
+}
+
+impl Eq for DataUrlBuf {}
+
+impl PartialOrd for DataUrlBuf {
+	fn partial_cmp(&self, other: &Self) -> Option<std::cmp::Ordering> {
+		Some(self.cmp(other))
+	}
+}
+
+impl Ord for DataUrlBuf {
+	fn cmp(&self, other: &Self) -> std::cmp::Ordering {
+		self.as_data_url().cmp(other.as_data_url())
+	}
+}
+
 impl std::hash::Hash for DataUrlBuf {
-	/// Hashes like the borrowed [`DataUrl`] (`DataUrlBuf: Borrow<DataUrl>`): the
-	/// cached delimiters are a function of the URL and take no part.
 	fn hash<H: std::hash::Hasher>(&self, state: &mut H) {
 		self.as_data_url().hash(state)
 	}
